@@ -163,6 +163,8 @@ struct State {
   lock_names: HashMap<usize, usize>,
   sched: SchedSt,
   choice_points: u32,
+  /// the running thread gave up its turn explicitly (`thread::yield_now`, `hint::spin_loop`)
+  yielding: bool,
   taken: Vec<(u32, u8)>,
   switches: u32,
   aborted: bool,
@@ -395,13 +397,18 @@ impl State {
   }
 
   fn pick(&mut self, en: &[usize]) -> usize {
+    let yielding = std::mem::replace(&mut self.yielding, false);
     let default = match self.cur {
+      // an explicit yield hands the turn to the next enabled thread (round robin), so
+      // that a spin-wait with yield_now makes progress under every schedule
+      Some(c) if yielding && en.len() >= 2 => *en.iter().find(|t| **t > c).unwrap_or(&en[0]),
       Some(c) if en.contains(&c) => c,
       _ => en[0],
     };
     if en.len() < 2 {
       return default;
     }
+
     let pos = self.choice_points;
     self.choice_points += 1;
     let mut chosen = default;
@@ -414,7 +421,7 @@ impl State {
         let mut x = seed.wrapping_add(t.wrapping_mul(0x9E37_79B9));
         self.sched.pct_prio.push(1_000 + (splitmix(&mut x) % 1_000_000) as i64);
       }
-      if self.sched.pct_change.contains(&pos) {
+      if self.sched.pct_change.contains(&pos) || yielding {
         if let Some(c) = self.cur {
           self.sched.pct_low -= 1;
           self.sched.pct_prio[c] = self.sched.pct_low;
@@ -945,6 +952,7 @@ where
         pct_low: 0,
       },
       choice_points: 0,
+      yielding: false,
       taken: Vec::new(),
       switches: 0,
       aborted: false,
@@ -1080,6 +1088,14 @@ pub fn now() -> u64 {
 
 pub fn yield_point() {
   let _ = sched_point(Wait::Run);
+}
+
+/// an explicit yield: by default the turn goes to the next enabled thread
+pub fn yield_fair() {
+  if let Some(ctx) = current() {
+    lock_state(&ctx.exec).yielding = true;
+    let _ = sched_point(Wait::Run);
+  }
 }
 
 /// park until no other thread can run (the clock does not move)
